@@ -163,7 +163,7 @@ func RunHX(c HXCheck, tier string) int {
 			// re-execute twice: the same program must fail the same way
 			same, again := 0, 0
 			for k := 0; k < 2; k++ {
-				if f, _ := RunProgram(pool, v.Scope, tier, v.Idx, v.Prog); f != nil {
+				if f, _ := RunProgram(pool, v.Scope, tier, v.Idx, v.Prog); f != nil && f.Kind != "harness" {
 					again++
 					if f.Kind == v.Fail.Kind && f.Msg == v.Fail.Msg {
 						same++
@@ -296,14 +296,23 @@ func keys(m map[string]*Finding) []string {
 }
 
 // RunProgram executes one whole program in a worker and returns its failure (nil = passed).
-func RunProgram(pool *par.Pool, scope, tier string, idx int, prog []apix.Op) (*apix.Fail, []string) {
+func RunProgram(pool *par.Pool, scope, tier string, idx int, prog []apix.Op) (out *apix.Fail, notes []string) {
 	if len(prog) == 0 {
 		return nil, nil
 	}
 	job, _ := json.Marshal(hx.Job{Scope: scope, Tier: tier, Idx: idx, Prog: prog, Mode: "run"})
-	var out *apix.Fail
-	var notes []string
+	// the exploration's deadline must not apply here: a skipped re-run would look like a passing one
+	saved, savedSkipped := pool.Deadline, pool.Skipped
+	pool.Deadline = time.Time{}
+	defer func() { pool.Deadline, pool.Skipped = saved, savedSkipped }()
+	answered := false
+	defer func() {
+		if !answered {
+			out = &apix.Fail{Kind: "harness", At: -1, Msg: "re-run produced no answer"}
+		}
+	}()
 	_ = pool.Run([][]byte{job}, func(r par.Result) {
+		answered = true
 		if r.Died || r.Hung {
 			out = &apix.Fail{Kind: "crash", At: -1, Msg: "worker died or hung"}
 			return
@@ -546,6 +555,13 @@ func Replay(path string) int {
 		return 0
 	}
 	res := hx.Expand(hx.Job{Scope: art.Scope, Tier: art.Tier, Idx: art.Idx, Prog: art.Prog, Mode: "run"})
+	if n, _ := strconv.Atoi(os.Getenv("VERIF_REPLAY_AGAIN")); n > 0 {
+		// debugging aid: the same program again in the same process (must give the same answer)
+		for i := 0; i < n; i++ {
+			r2 := hx.Expand(hx.Job{Scope: art.Scope, Tier: art.Tier, Idx: art.Idx, Prog: art.Prog, Mode: "run"})
+			fmt.Printf("again %d: err=%q fail=%v\n", i+1, r2.Err, r2.Succ[0].Fail)
+		}
+	}
 	hx.CleanWorkDir()
 	if res.Err != "" {
 		fmt.Println("harness error:", res.Err)
